@@ -146,6 +146,15 @@ Submit(k, a) ==
   /\ cmds' = Append(cmds, [kind |-> k, arg |-> a, st |-> "pending", ph |-> "", acc |-> EmptyAcc])
   /\ Quiet /\ UNCHANGED <<greet, cstate, mbox, alive>>
 
+\* a command submitted after the connection has been lost (or closed by the server): it completes at once, with an
+\* error - it must not wait for an answer that cannot come
+SubmitDead(k, a) ==
+  /\ ~alive /\ Len(cmds) < MaxCmds
+  /\ k \in Kinds /\ a \in ArgsOf(k)
+  /\ cmds' = Append(cmds, [kind |-> k, arg |-> a, st |-> "ERR", ph |-> "", acc |-> EmptyAcc])
+  /\ comp' = {Len(cmds) + 1} /\ uni' = <<>>
+  /\ UNCHANGED <<greet, cstate, mbox, alive>>
+
 \* the caller ends an IDLE: DONE is written, the connection can be used again
 IdleDone(i) ==
   /\ alive /\ i \in PendingOf("IDLE") /\ cmds[i].ph = "idling"
@@ -383,7 +392,7 @@ Bye ==
   /\ comp' = PendingIds /\ uni' = <<>> /\ greet' = greet
 
 Next ==
-  \/ \E k \in Kinds : \E a \in ArgsOf(k) : Submit(k, a)
+  \/ \E k \in Kinds : \E a \in ArgsOf(k) : Submit(k, a) \/ SubmitDead(k, a)
   \/ \E i \in 1..MaxCmds : IdleDone(i) \/ Cont(i)
   \/ \E n \in 0..MaxNum : Exists(n) \/ Expunge(n) \/ Search(n) \/ Sort(n) \/ Thread(n) \/ MoveUid(n)
                           \/ UidNext(n) \/ UidValidity(n)
